@@ -21,7 +21,51 @@ def sh(cmd, cwd=None, timeout=3600):
     return p.returncode, p.stdout
 
 
+def recheck(names, checks):
+    """Re-run checks against already confirmed seeded changes (no scratch worktree needed)."""
+    claimed = sorted(json.load(open(os.path.join(ROOT, "tools", "claimed.json"))).keys())
+    for name in names:
+        out = os.path.join(ROOT, "seeded", name)
+        meta = json.load(open(os.path.join(out, "meta.json")))
+        prop = meta["property"]
+        rc, o = sh("git -C /repo status --short")
+        if o.strip():
+            print("refusing: /repo is dirty:", o)
+            return 2
+        rc, o = sh(f"git -C /repo apply {out}/patch.diff")
+        if rc != 0:
+            print(f"[{name}] patch does not apply to /repo:", o)
+            continue
+        order = [prop] + [c for c in (checks or []) if c != prop] if checks != ["all"] else [prop] + [c for c in claimed if c != prop]
+        meta.setdefault("checks", {})
+        try:
+            for c in order:
+                t = time.time()
+                rc, o = sh(f"./check {c} --tier quick", cwd=ROOT, timeout=1800)
+                viol = [l for l in o.splitlines() if l.startswith("VIOLATION")]
+                detail = None
+                if viol:
+                    m = re.search(r"replay=(\S+)", viol[0])
+                    if m and os.path.exists(m.group(1)):
+                        body = json.load(open(m.group(1)))
+                        detail = {"kind": body.get("kind"), "ops": body.get("ops", [])[:12], "detail": str(body.get("detail"))[:400]}
+                meta["checks"][c] = {"rc": rc, "violation": viol[0] if viol else None, "replay": detail, "secs": round(time.time() - t, 1)}
+                print(f"[{name}] {c}: rc={rc} {viol[0] if viol else ''}", flush=True)
+        finally:
+            sh("git -C /repo checkout -- .")
+            for f in os.listdir(os.path.join(ROOT, "replays")):
+                os.remove(os.path.join(ROOT, "replays", f))
+        meta["rechecked_at_verif_commit"] = sh("git -C /verif rev-parse --short HEAD")[1].strip()
+        json.dump(meta, open(os.path.join(out, "meta.json"), "w"), indent=1)
+    return 0
+
+
 def main():
+    if sys.argv[1] == "--recheck":
+        # seedrun.py --recheck <name|all> [--checks C01,C02|all]
+        names = sorted(d for d in os.listdir(os.path.join(ROOT, "seeded")) if os.path.exists(os.path.join(ROOT, "seeded", d, "meta.json"))) if sys.argv[2] == "all" else sys.argv[2].split(",")
+        checks = sys.argv[sys.argv.index("--checks") + 1].split(",") if "--checks" in sys.argv else []
+        return recheck(names, checks)
     wt_name, name = sys.argv[1], sys.argv[2]
     checks = None
     if "--checks" in sys.argv:
